@@ -82,6 +82,8 @@ pub struct GroupModel {
     pub members: BTreeSet<usize>,
     /// incremented every time the group becomes empty
     pub epoch: u32,
+    /// how often each client has joined (distinguishes memberships of one client)
+    pub joins: BTreeMap<usize, u32>,
 }
 
 #[derive(Clone, Debug, Hash)]
@@ -90,6 +92,10 @@ pub struct GMsg {
     pub group: String,
     pub gepoch: u32,
     pub delivered_to: Vec<usize>,
+    /// (member, connection epoch of the member) per delivery, parallel to `delivered_to`
+    pub delivered_on: Vec<u32>,
+    /// the memberships (client, join number) that existed when the message was accepted
+    pub members_at_accept: Vec<(usize, u32)>,
 }
 
 pub struct Model {
@@ -115,6 +121,8 @@ pub struct Model {
     pub outcome_acc: u64,
     pub v5: Vec<bool>,
     pub max_out: u64,
+    /// a member of a shared group with a persistent session has disconnected
+    pub persistent_shared_left: bool,
 }
 
 pub fn split_share(filter: &str) -> (Option<String>, String) {
@@ -151,6 +159,7 @@ impl Model {
             outcome_acc: 0,
             v5: cfg.v5.clone(),
             max_out: cfg.max_out,
+            persistent_shared_left: false,
         }
     }
 
@@ -161,7 +170,20 @@ impl Model {
     }
 
     fn v(&mut self, code: &str, detail: String) {
-        self.viols.push((code.to_string(), detail));
+        let (code, detail) = self.shared_recode(code, detail);
+        self.viols.push((code, detail));
+    }
+
+    /// What a shared group does after a member with a *persistent* session has disconnected
+    /// is one recorded finding (the router rewinds the group to that member's oldest
+    /// unacknowledged message and does not put a resumed member back into the group): the
+    /// shared-subscription oracles report under one code from then on.
+    fn shared_recode(&self, code: &str, detail: String) -> (String, String) {
+        if self.persistent_shared_left && code.starts_with("shared_") {
+            ("shared_group_after_persistent_member_left".to_string(), format!("(consequence: {code}) {detail}"))
+        } else {
+            (code.to_string(), detail)
+        }
     }
 
     pub fn take_violations(&mut self, prop: &'static str, out: &mut Vec<Violation>) {
@@ -200,6 +222,8 @@ impl Model {
             c.outstanding.clear();
             c.q2_recorded.clear();
             c.alias_in.clear();
+            // a resumed session is served again from its oldest unacknowledged message
+            c.shared_seen.clear();
             !c.clean && c.had_session
         };
         if !resume {
@@ -291,6 +315,9 @@ impl Model {
             c.outstanding.clear();
             c.rel_outstanding.clear();
         } else {
+            if self.clients[ci].subs.iter().any(|s| s.active && s.group.is_some()) {
+                self.persistent_shared_left = true;
+            }
             let c = &mut self.clients[ci];
             c.had_session = true;
             // delivery restarts, per subscription, at its oldest unacknowledged message
@@ -379,6 +406,8 @@ impl Model {
                         group: g.clone(),
                         gepoch: gm.epoch,
                         delivered_to: vec![],
+                        delivered_on: vec![],
+                        members_at_accept: gm.members.iter().map(|m| (*m, gm.joins.get(m).copied().unwrap_or(0))).collect(),
                     });
                 }
             }
@@ -540,7 +569,10 @@ impl Model {
             }
         }
         if let Some(g) = &group {
-            self.groups.entry(g.clone()).or_default().members.insert(ci);
+            let gm = self.groups.entry(g.clone()).or_default();
+            if gm.members.insert(ci) {
+                *gm.joins.entry(ci).or_insert(0) += 1;
+            }
         }
         let c = &mut self.clients[ci];
         c.subs.push(SubInst {
@@ -881,7 +913,20 @@ impl Model {
             return;
         };
         let idx = self.gmsgs[k].idx;
-        if !self.gmsgs[k].delivered_to.is_empty() {
+        // not a second forward: a retransmission to the same member on a later connection of
+        // its persistent session, or a re-dispatch after the session of every earlier
+        // recipient has ended (MQTT 5, 4.8.2)
+        let my_epoch = self.clients[ci].epoch;
+        let excused = self.gmsgs[k].delivered_to.iter().zip(self.gmsgs[k].delivered_on.iter()).all(|(m, on)| {
+            let c = &self.clients[*m];
+            if *m == ci {
+                *on != my_epoch && !c.clean
+            } else {
+                // that member's session is gone: clean session whose connection has ended
+                c.clean && (!c.registered || c.epoch != *on)
+            }
+        });
+        if !self.gmsgs[k].delivered_to.is_empty() && !excused {
             let d = format!(
                 "message {topic}:{} of group {g} was forwarded to {name} after it had already been forwarded to {:?}",
                 String::from_utf8_lossy(payload),
@@ -890,6 +935,7 @@ impl Model {
             self.v("shared_duplicate", d);
         }
         self.gmsgs[k].delivered_to.push(ci);
+        self.gmsgs[k].delivered_on.push(my_epoch);
         if let Some(last) = self.clients[ci].shared_seen.last() {
             if *last > idx {
                 self.v(
@@ -971,11 +1017,16 @@ impl Model {
         if self.check_forwards {
             for gm in self.gmsgs.iter() {
                 let Some(g) = self.groups.get(&gm.group) else { continue };
-                let live_member = g.members.iter().any(|m| self.clients[*m].registered);
+                // owed to a membership that existed when the message was accepted, still
+                // exists and is connected now (a later joiner, or a saved session that is
+                // offline, cannot be blamed)
+                let live_member = gm.members_at_accept.iter().any(|(m, j)| {
+                    g.members.contains(m) && g.joins.get(m) == Some(j) && self.clients[*m].registered
+                });
                 if gm.delivered_to.is_empty() && g.epoch == gm.gepoch && live_member {
                     let m = &self.accepted[gm.idx as usize];
-                    out.push((
-                        "shared_undelivered".into(),
+                    out.push(self.shared_recode(
+                        "shared_undelivered",
                         format!(
                             "message {}:{} accepted for group {} (members {:?}) reached no member although the group never became empty",
                             m.topic,
@@ -1000,6 +1051,7 @@ impl Model {
         self.wills_fired.hash(h);
         self.groups.hash(h);
         self.gmsgs.hash(h);
+        self.persistent_shared_left.hash(h);
     }
 
     pub fn outcome(&self) -> u64 {
